@@ -33,7 +33,7 @@ def wellformed(rng, fmt, small=True):
     elif fmt == 'qed':
         p = dict(total=rng.choice([512, 4096, 66000]))
     elif fmt == 'vhdx':
-        n_pad_meta = rng.choice([0, 0, 1, 2, 7, 100, 2045, 2046] if not small else [0, 0, 1, 2, 7, 100])
+        n_pad_meta = rng.choice([0, 0, 1, 2, 7, 100, 2045, 2046] if not small else [0, 0, 0, 1, 1, 2, 7, 7, 100, 100, 2044, 2045, 2046])
         n_after_meta = rng.choice([0, 0, 1, 5]) if n_pad_meta < 2040 else 0
         n_pad_region = rng.choice([0, 0, 1, 3, 2046])
         table_end = 32 * (n_pad_meta + n_after_meta + 2)
